@@ -219,6 +219,7 @@ pub fn sum_bound(scn: &FScn) -> Option<u64> {
     let any_trunc = scn.servers.iter().any(|s| matches!(s.udp, Some(UdpBeh::Trunc { .. })));
     let mut cost = 0u64;
     let mut best: Option<u64> = None;
+    let mut other_ans = 0u64;
     for s in &scn.servers {
         let tcp_path = s.tcp.as_ref().map(|tcp| match tcp.conn {
             Conn::Ok { c } if c <= ct => match tcp.reply {
@@ -293,9 +294,16 @@ pub fn sum_bound(scn: &FScn) -> Option<u64> {
             best = Some(best.map_or(worst, |b: u64| b.max(worst)));
         } else {
             cost += paths.iter().map(|p| if let Path::Fail(x) = p { *x } else { 0 }).sum::<u64>();
+            // a server that is not relied upon may still be the one that is asked and answers —
+            // after its own latency
+            for p in &paths {
+                if let Path::Ans(x) = p {
+                    other_ans = other_ans.max(*x);
+                }
+            }
         }
     }
-    best.map(|b| cost + b)
+    best.map(|b| cost + b.max(other_ans))
 }
 
 fn call_json(c: &FCall) -> Value {
@@ -526,9 +534,11 @@ pub fn judge(rep: &mut Reporter, scn: &FScn) {
         j.rep.add("fs_connect_tcp_calls", out.log.iter().filter(|e| e.kind == "tcp-connect").count() as u64);
         j.rep.add("fs_udp_datagrams", out.log.iter().filter(|e| e.kind == "udp-send").count() as u64);
         j.rep.add("fs_tcp_queries", out.log.iter().filter(|e| e.kind == "tcp-query").count() as u64);
-        if out.log.iter().filter(|e| e.kind == "udp-send").count() > out.log.iter().filter(|e| e.kind == "udp-bind").count().min(1) && out.log.iter().any(|e| e.kind == "udp-send") {
-            // more than one datagram: hickory's own retransmission (or several servers)
-            let per_server_q: BTreeMap<(usize, i32), u64> = out.log.iter().filter(|e| e.kind == "udp-send").fold(BTreeMap::new(), |mut m, e| {
+        {
+            // within ONE pool lookup a server is asked over UDP once: a second datagram for the same
+            // (server, query) during the first pool lookup is hickory's own retransmission
+            let first_end = out.attempts.first().and_then(|a| a.end).unwrap_or(0);
+            let per_server_q: BTreeMap<(usize, i32), u64> = out.log.iter().filter(|e| e.kind == "udp-send" && e.t < first_end).fold(BTreeMap::new(), |mut m, e| {
                 *m.entry((e.server, e.q)).or_insert(0) += 1;
                 m
             });
@@ -552,6 +562,8 @@ pub fn judge(rep: &mut Reporter, scn: &FScn) {
                     // only meaningful when the lookup's own deadline did not cut it short
                     if f.t == 0 {
                         j.rep.max(if silent_udp { "fs_silent_udp_occupancy_over_timeout" } else { "fs_silent_tcp_occupancy_over_timeout" }, occ);
+                        // 0.0 here = never shorter than the whole timeout either
+                        j.rep.max(if silent_udp { "fs_silent_udp_max_shortfall" } else { "fs_silent_tcp_max_shortfall" }, 1.0 - occ);
                         j.rep.count("fs_silent_occupancy_measured");
                     }
                 }
